@@ -20,6 +20,7 @@ import (
 	"path/filepath"
 	"strings"
 	"sync"
+	"time"
 
 	"verifharness/reg"
 )
@@ -96,6 +97,10 @@ func (x *runner) add(req *request, done func(response)) {
 
 // flush runs the queued jobs and emits their cases in order.
 func (x *runner) flush() {
+	t0 := time.Now()
+	defer func() {
+		fmt.Fprintf(os.Stderr, "c17: batch of %d programs in %.1fs\n", len(x.jobs), time.Since(t0).Seconds())
+	}()
 	res := make([]response, len(x.jobs))
 	var wg sync.WaitGroup
 	for k := range x.ds {
@@ -103,7 +108,15 @@ func (x *runner) flush() {
 		go func(k int) {
 			defer wg.Done()
 			for i := k; i < len(x.jobs); i += len(x.ds) {
-				res[i] = x.ds[k].exec1(x.jobs[i].req)
+				r := x.ds[k].exec1(x.jobs[i].req)
+				if r.Outcome == "unresponsive" || r.Outcome == "hang" {
+					// a loaded machine must not produce a finding: confirm on a
+					// fresh child with twice the time
+					x.ds[k].kill()
+					x.jobs[i].req.TimeoutMs *= 2
+					r = x.ds[k].exec1(x.jobs[i].req)
+				}
+				res[i] = r
 			}
 		}(k)
 	}
@@ -314,7 +327,10 @@ func run(c *reg.Ctx) {
 	}
 	x.flush()
 
-	// 3b. $nil in every argument position of every command
+	// 3b. sweeps: in every argument position of every command (others filled
+	//     with plain values) $nil and a list of mixed element types; and mixed
+	//     values piped in as input
+	const mixed = "[(num 1) $nil [a] { } a]"
 	fillers := []string{"a", "1"}
 	if c.Tier == "thorough" {
 		fillers = []string{"a", "1", "[a]", "{ }"}
@@ -325,8 +341,12 @@ func run(c *reg.Ctx) {
 		if n == 0 && a.hi != 0 {
 			n = 1
 		}
+		suffix := ""
+		if cmd == "benchmark" {
+			suffix = " &min-runs=1 &min-time=0s"
+		}
 		for pos := 0; pos < n && pos < 4; pos++ {
-			for _, f := range fillers {
+			for fi, f := range fillers {
 				if _, r := restrictedCmds[cmd]; r && f == "1" {
 					continue
 				}
@@ -335,13 +355,18 @@ func run(c *reg.Ctx) {
 					args[i] = f
 				}
 				args[pos] = "$nil"
-				prog := cmd + " " + strings.Join(args, " ")
-				if cmd == "benchmark" {
-					prog += " &min-runs=1 &min-time=0s"
+				x.search("nil-sweep", "nil-argument", cmd+" "+strings.Join(args, " ")+suffix, nil)
+				if fi == 0 {
+					args[pos] = mixed
+					x.search("mixed-sweep", "call:"+cmd, cmd+" "+strings.Join(args, " ")+suffix, nil)
 				}
-				x.search("nil-sweep", "nil-argument", prog, nil)
 			}
 		}
+		args := make([]string, a.lo)
+		for i := range args {
+			args[i] = "a"
+		}
+		x.search("mixed-sweep", "call:"+cmd, "put (num 1) $nil [a] { } a | "+cmd+" "+strings.Join(args, " ")+suffix, nil)
 	}
 	// 3c. calls with pool arguments
 	nCalls := c.N * 3 / 5
@@ -497,6 +522,8 @@ func (x *runner) genRedir(allowBad bool) redirInfo {
 			ri.neg = true
 		}
 		switch src.src {
+		case "-", "-1":
+			ri.fromOutput = true // the closed port has no readable channel either
 		case "1", "2", "stdout":
 			ri.fromOutput = true
 			ri.self1 = dnum == 1 && src.src != "2"
